@@ -193,13 +193,43 @@ def _check(facts, extra, timeout_ms):
     return str(r), s
 
 
+def _abstract_ite_conditions(term):
+    """Replace every atom over the reals (a Boolean application with a real-sorted argument) by an unconstrained Boolean,
+    the same one for the same atom.  Valid / unsatisfiable after this abstraction implies valid / unsatisfiable before it."""
+    atoms, seen, todo = {}, set(), [term]
+    while todo:
+        t = todo.pop()
+        if t.get_id() in seen:
+            continue
+        seen.add(t.get_id())
+        if z3.is_app(t):
+            ch = t.children()
+            if z3.is_bool(t) and any(z3.is_real(u) for u in ch):
+                atoms.setdefault(t.get_id(), t)
+                continue
+            todo.extend(ch)
+    if not atoms:
+        return term
+    subs = [(a0, z3.Bool(f'__atom_{i}')) for i, a0 in atoms.items()]
+    return z3.substitute(term, *subs)
+
+
 def branch(term) -> bool:
     """Decide a symbolic condition on the current path, forking if both sides are feasible."""
     c = ctx()
+    raw = term
     term = z3.simplify(term)
     if z3.is_true(term):
         return True
     if z3.is_false(term):
+        return False
+    # conditions that are valid / unsatisfiable on their own (e.g. the range of an ite chain of constants) need no facts:
+    # deciding them without the path's nonlinear context keeps the solver from answering `unknown` (deterministic in the
+    # term, so re-executions of the path take the same shortcut and the decision prefix stays aligned)
+    ab = _abstract_ite_conditions(raw)          # before simplification: shared sub-terms keep their identity
+    if _check([], [z3.Not(ab)], 1000)[0] == 'unsat':
+        return True
+    if _check([], [ab], 1000)[0] == 'unsat':
         return False
     c.nbranch += 1
     maxb = c.limits.get('max_branches', 400)
@@ -443,6 +473,30 @@ def ite(c, a, b):
     if isinstance(b, (SB, bool)):
         b = SI.lift(b)
     return SI(z3.If(c.t, SI.lift(a), SI.lift(b)))
+
+
+
+def _sym_scalar(x):
+    return isinstance(x, (SI, R)) and not getattr(x, 'concrete', False)
+
+
+def vf_min(*a, **k):
+    """builtin min over symbolic scalars without forking: min(a, b) = b if b < a else a (first minimal element wins)."""
+    if k or len(a) < 2 or not any(_sym_scalar(x) for x in a) or not all(isinstance(x, (int, float, Fr, SI, R)) for x in a):
+        return min(*a, **k)
+    r = a[0]
+    for x in a[1:]:
+        r = ite(x < r, x, r)
+    return r
+
+
+def vf_max(*a, **k):
+    if k or len(a) < 2 or not any(_sym_scalar(x) for x in a) or not all(isinstance(x, (int, float, Fr, SI, R)) for x in a):
+        return max(*a, **k)
+    r = a[0]
+    for x in a[1:]:
+        r = ite(x > r, x, r)
+    return r
 
 
 def _same(a, b):
